@@ -249,7 +249,7 @@ def _dict_src(r, depth):
     return "schema.dict"
 
 
-NS = dict(gen.NS, make_required=make_required)
+NS = dict(gen.NS, make_required=make_required, re=__import__("re"))
 
 
 def build(src):
